@@ -32,6 +32,10 @@ pub struct Case {
     pub inputs: Vec<Vec<Fl>>,
     pub ops: Vec<Op>,
     pub jit: bool,
+    /// interpreter with a small register budget (0 = the default 255): nearly
+    /// every tape spills, so allocator state kept in a reused workspace matters
+    #[serde(default)]
+    pub small: u8,
 }
 
 pub struct P;
@@ -440,12 +444,14 @@ impl Prop for P {
             gens::points(2..=10, prop_oneof![4 => gens::fl_moderate(), 1 => gens::fl_any()].boxed()),
             vec(op, 2..=tier.pick(20, 40)),
             any::<bool>(),
+            prop_oneof![2 => Just(0u8), 1 => Just(4u8), 1 => Just(8u8)],
         )
-            .prop_map(|(fns, inputs, ops, jit)| Case {
+            .prop_map(|(fns, inputs, ops, jit, small)| Case {
                 fns,
                 inputs,
                 ops,
                 jit,
+                small,
             })
             .boxed()
     }
@@ -454,6 +460,12 @@ impl Prop for P {
         if case.jit {
             cx.ev.count("backend_jit");
             run::<JitFunction>(case, cx)
+        } else if case.small == 4 {
+            cx.ev.count("backend_vm_4_registers");
+            run::<fidget_core::vm::GenericVmFunction<4>>(case, cx)
+        } else if case.small == 8 {
+            cx.ev.count("backend_vm_8_registers");
+            run::<fidget_core::vm::GenericVmFunction<8>>(case, cx)
         } else {
             cx.ev.count("backend_vm");
             run::<VmFunction>(case, cx)
@@ -493,7 +505,7 @@ impl Prop for P {
          tape storage taken from a shared pool and recycled afterwards; Simplify with a trace from the long-lived \
          evaluator, function storage from a pool of recycled functions and ONE shared workspace; RecycleFn; and \
          RenderHandle sub-histories (interval eval -> cached simplify -> float-slice eval -> recycle into the same pools); \
-         interpreter or JIT. Model: after every Eval / Simplify the same call is made on brand-new objects (function \
+         interpreter (255, 8 or 4 registers, the small budgets making nearly every tape spill) or JIT. Model: after every Eval / Simplify the same call is made on brand-new objects (function \
          rebuilt from its spec and simplification chain, fresh storage, fresh evaluator, fresh workspace); outputs, traces, \
          size, output_count and variable count must be identical bit-for-bit. Non-trivial = an evaluator last used by a \
          bigger function (more tape, >= outputs) is reused by a smaller one or vice versa, with recycled storage in play."
